@@ -317,7 +317,17 @@ func DecryptWrappedRegistrationInfo(ctx context.Context, reqInfo *types.FetchNod
 		return nil, fmt.Errorf("(%s) %s", op, err.Error())
 	}
 
-	registrationInfoBytes, err := opts.WithRegistrationWrapper.Decrypt(ctx, blobInfo)
+	// The blob comes from the remote peer and the wrapper is supplied by the
+	// application; some wrappers (e.g. aead) panic instead of returning an
+	// error on malformed input, which must not take down the caller
+	registrationInfoBytes, err := func() (pt []byte, err error) {
+		defer func() {
+			if r := recover(); r != nil {
+				err = fmt.Errorf("registration wrapper panicked during decryption: %v", r)
+			}
+		}()
+		return opts.WithRegistrationWrapper.Decrypt(ctx, blobInfo)
+	}()
 	if err != nil {
 		err := fmt.Errorf("error decrypting encrypted wrapped registration info: %w", err)
 		opts.WithLogger.Error(err.Error(), "op", op)
